@@ -394,3 +394,19 @@ pub fn mm_insert(m: &mut Mm) {
 pub fn mm_remove(m: &mut Mm) {
     m.seen.remove(&1);
 }
+
+/// guard spelled through a bool local with one computed and one constant arm
+pub fn guard_ok_via_bool_local(s: &St, x: u32) {
+    let free = match s.votes.first() {
+        Some(v) => v.is_none(),
+        None => false,
+    };
+    if free && !s.flag && x < 10 {
+        act(x);
+    }
+}
+
+pub fn ambient_bad_random_state(v: &[u64]) -> u64 {
+    use std::hash::BuildHasher;
+    std::hash::RandomState::new().hash_one(v)
+}
